@@ -43,6 +43,8 @@ type SpecP struct {
 	TemplateVolumes int `json:"template_volumes,omitempty"`
 	// SelExpr: the selector uses matchExpressions only (no matchLabels)
 	SelExpr bool `json:"sel_expr,omitempty"`
+	// SelExtra 1-3: matchLabels plus an Exists / NotIn / two-valued In requirement
+	SelExtra int `json:"sel_extra,omitempty"`
 	// ClaimLabels: claim templates carry labels of their own
 	ClaimLabels bool   `json:"claim_labels,omitempty"`
 	Service     string `json:"service,omitempty"`
@@ -127,11 +129,12 @@ const (
 	OpRelabelPod       // pod a is relabelled by hand so that it stops matching the selector (or matches again); its owner reference stays
 	OpAddStrayPod      // somebody creates a pod named S-0<a> (a leading-zero spelling of ordinal a) carrying the set's labels
 	OpClaimRemove      // somebody deletes claim a outright (no pod uses it, or nobody cares): it is gone from the API
+	OpPauseSeen        // the user pauses the set and the set informer delivers that at once (used as mid-reconcile interference)
 	numOpKinds
 )
 
 var opNames = [...]string{"reconcile", "kubelet", "refreshAll", "refreshPod", "refreshSet", "editReplicas", "slotAdd", "slotRemove",
-	"editTemplate", "editPartition", "editMeta", "userDeletePod", "settle", "scaleInAt", "pause", "markDeleting", "restart", "editLimit", "editStrategy", "setRecreate", "setRemove", "addOrphanPod", "orphanPod", "claimTerminating", "editSlotsRaw", "relabelPod", "addStrayPod", "claimRemove"}
+	"editTemplate", "editPartition", "editMeta", "userDeletePod", "settle", "scaleInAt", "pause", "markDeleting", "restart", "editLimit", "editStrategy", "setRecreate", "setRemove", "addOrphanPod", "orphanPod", "claimTerminating", "editSlotsRaw", "relabelPod", "addStrayPod", "claimRemove", "pauseSeen"}
 
 // Fault kinds for a reconcile op
 const (
@@ -285,6 +288,15 @@ func applySpec(set *asv1.StatefulSet, s SpecP) {
 		for i := range set.Spec.VolumeClaimTemplates {
 			set.Spec.VolumeClaimTemplates[i].Labels = map[string]string{"tier": "storage"}
 		}
+	}
+	if s.SelExtra > 0 && !s.SelExpr && set.Spec.Selector != nil {
+		// matchLabels plus a set-based requirement that the pods' labels satisfy as well
+		extra := []metav1.LabelSelectorRequirement{
+			{Key: "app", Operator: metav1.LabelSelectorOpExists},
+			{Key: "tier", Operator: metav1.LabelSelectorOpNotIn, Values: []string{"frontend"}},
+			{Key: "app", Operator: metav1.LabelSelectorOpIn, Values: []string{s.Name, "canary-of-" + s.Name}},
+		}[(s.SelExtra-1)%3]
+		set.Spec.Selector.MatchExpressions = append(set.Spec.Selector.MatchExpressions, extra)
 	}
 	if s.SelExpr {
 		set.Spec.Selector = &metav1.LabelSelector{MatchExpressions: []metav1.LabelSelectorRequirement{{Key: "app", Operator: metav1.LabelSelectorOpIn, Values: []string{s.Name}}}}
@@ -794,7 +806,7 @@ func (s *Sys) envOp(k, a, b int) {
 		c.UpdateSet(NS, s.Name, func(x *asv1.StatefulSet) { helper.SetPausedReconcile(x, on) })
 		s.logf("user: pause=%v", on)
 	case OpMarkDeleting:
-		if c.MarkSetDeleting(NS, s.Name) {
+		if c.MarkSetDeletingAt(NS, s.Name, abs(a)%3 == 0) {
 			s.logf("user: delete set (deletionTimestamp set)")
 		}
 	case OpAddOrphanPod:
@@ -824,6 +836,9 @@ func (s *Sys) envOp(k, a, b int) {
 		if set := c.Set(NS, s.Name); set != nil {
 			ord := abs(a) % 5
 			name := fmt.Sprintf("%s-0%d", s.Name, ord)
+			if abs(b)%4 == 3 {
+				name = fmt.Sprintf("%s-%d", s.Name, 4294967296+int64(ord)) // digits that do not fit an int32
+			}
 			if c.Pod(NS, name) == nil {
 				img := set.Spec.Template.Spec.Containers[0].Image
 				p := mkPod(set, ord, "", img, 3, false)
@@ -865,6 +880,10 @@ func (s *Sys) envOp(k, a, b int) {
 			x.Annotations[helper.DeleteSlotsAnn] = val
 		})
 		s.logf("user: delete-slots=%s (not a list of int32: no slots)", val)
+	case OpPauseSeen:
+		c.UpdateSet(NS, s.Name, func(x *asv1.StatefulSet) { helper.SetPausedReconcile(x, true) })
+		c.RefreshSet(NS, s.Name, s.W != nil && s.W.EventMode)
+		s.logf("user: pause (already visible in the set cache)")
 	case OpClaimRemove:
 		if claims := c.PVCs(); len(claims) > 0 {
 			pvc := claims[abs(a)%len(claims)]
